@@ -92,6 +92,30 @@ class Runner:
         return bad
 
 
+ATTRS = ("params", "isTA", "init", "nr", "urgent", "committed", "inv", "exprate", "costrate", "control", "select", "guard", "sync",
+         "assign", "prob", "templ", "unbound", "arguments", "mapping")
+
+
+def diff_field(a, b):
+    """which attribute of a dump line differs (attributes are `name=value`, a value may contain blanks)"""
+    x, y = a.split(" "), b.split(" ")
+    cur = "name"
+    for i in range(max(len(x), len(y))):
+        p = x[i] if i < len(x) else None
+        q = y[i] if i < len(y) else None
+        for t in (p, q):
+            if t and "=" in t and t.split("=")[0] in ATTRS:
+                cur = t.split("=")[0]
+                break
+        if p in ("->",):
+            cur = "target"
+        if p != q:
+            if cur == "name" and len(x) > 2 and x[0] == "" and x[2] == "edge":
+                cur = "source"
+            return cur
+    return "structure"
+
+
 def classify(res):
     """shape key of a disagreement (never a seed or a counter)"""
     if "crash" in res:
@@ -99,16 +123,15 @@ def classify(res):
     if "anomaly" in res:
         return "exception:parse_XML_buffer"
     if "doc" in res:
-        lib = res["doc"]["library"].strip().split(" ")
-        what = lib[0] if lib and lib[0] else "line"
-        # which field differs
-        a, b = res["doc"]["library"].split(" "), res["doc"]["specification"].split(" ")
-        field = "structure"
-        if len(a) == len(b):
-            for x, y in zip(a, b):
-                if x != y:
-                    field = x.split("=")[0] if "=" in x else "endpoint/name"
-                    break
+        lib, spec = res["doc"]["library"], res["doc"]["specification"]
+        kind = lambda l: (l.strip().split(" ") or ["line"])[0] or "line"
+        if kind(lib) != kind(spec) or lib == "<missing>" or spec == "<missing>":
+            return "doc:%s/structure" % (kind(spec) if lib == "<missing>" else kind(lib))
+        what = kind(lib)
+        field = diff_field(lib, spec)
+        if what == "edge" and field in ("nr", "name"):
+            a, b = lib.split(" "), spec.split(" ")
+            field = "source" if (len(a) > 3 and len(b) > 3 and a[3] == b[3]) else "structure"
         return "doc:%s/%s" % (what, field)
     if "trace" in res:
         return "trace:" + (res["trace"]["library"].split(" ")[0] if res["trace"]["library"] else "missing")
@@ -118,19 +141,21 @@ def classify(res):
 def run(ctx):
     cov = ctx.coverage
     t0 = time.time()
+    if not m.regen_tables(ctx):
+        return
     ok, log = ctx.prove(MODULE, ["drv_c04"])
     broken = []
     if not ok:
         broken = core.failing_theorems(log)
         ctx.log("proof broken:", broken or log[-1500:])
-        for path, thm, msg in (broken or [("?", "lake build", log[-300:])]):
-            ctx.proof_broken(thm, msg + "\n" + log[-2000:], "hand-written model: a broken proof is a defect of /verif, not of /repo")
         if not os.path.exists(core.lean_exe("drv_c04")):
+            for path, thm, msg in (broken or [("?", "lake build", log[-300:])]):
+                ctx.proof_broken(thm, msg + "\n" + log[-2000:], "nothing could be run")
             return
     cov["prove_s"] = round(time.time() - t0, 1)
     R = Runner(ctx)
     # -- corpus of earlier minimised disagreements ------------------------------------------------------------
-    n = 4000 if not ctx.thorough else 40000
+    n = 2500 if not ctx.thorough else 40000
     cases, stats = {}, {"templates": 0, "locations": 0, "branchpoints": 0, "edges": 0, "insts": 0, "procs": 0}
     shapes = set()
     for i in range(n):
@@ -215,6 +240,10 @@ def run(ctx):
                     "; ".join(l for l in cb if l.startswith("EXCEPTION")),
                     {"xml": COMMENT_XML, "observed": [l for l in cb if l.startswith(("EXCEPTION", "VERDICT"))],
                      "required": "no exception; static analysis runs (VERDICT with a supported-methods answer)"})
+    if not ok and not [v for v in ctx.violations if not v[3]]:
+        # a theorem / the tie broke and neither the oracle nor the witnesses produced a failing input
+        for path, thm, msg in (broken or [("?", "lake build", log[-300:])]):
+            ctx.proof_broken(thm, msg + "\n" + log[-2000:], "oracle on %d generated models of the real library: no failing input" % len(cases))
     ctx.assumptions += [
         "texts handed to the bison grammar (declarations, parameters, expressions, select lists) are opaque keys in the model: "
         "C04 proves which text lands on which object and field, not how it is parsed (C02)",
@@ -226,18 +255,36 @@ def run(ctx):
 
 
 def replay(ctx, path):
+    """re-run the stored input on the library built from the current tree and compare again; exit 1 while it still fails"""
     r = json.load(open(path))
     rep = r.get("replay", {})
     xml = rep.get("xml")
     if xml is None:
         print(json.dumps(r, indent=1)[:4000])
         return 1
+    if "model" in rep and os.path.exists(core.lean_exe("drv_c04")):
+        R = Runner(ctx)
+        bad = R.compare({"replay": (rep["model"], xml)})
+        if "replay" not in bad:
+            print("replay: the document built from this XML now equals the model it renders")
+            return 0
+        res = bad["replay"]
+        print("replay: still failing, key", classify(res))
+        print(json.dumps({k: v for k, v in res.items() if k in ("doc", "trace", "anomaly", "crash", "lean")}, indent=1))
+        print("--- library (key level) ---")
+        print("\n".join(res.get("real_doc", [])))
+        print("--- required (key level) ---")
+        print("\n".join(res.get("spec_doc", [])))
+        return 1
+    # witnesses of the exception shapes: show what the library does with the text
     b = core.build_repo("asan")
     exe = core.build_harness(b, "c04", ["c04.cpp"])
     blocks, crashed = m.run_batches(exe, [], [("replay", m.frame("xml", "replay", xml))], nproc=1)
-    print("\n".join(l for l in blocks.get("replay", []) if not l.startswith("TRACE decl_var") and not l.startswith("  var ")))
-    print("--- required (key level) ---")
-    print("\n".join(rep.get("required_dump") or [json.dumps(rep.get("required"))]))
-    print("--- observed at check time ---")
-    print(json.dumps(rep.get("observed_vs_required") or rep.get("observed"), indent=1))
+    out = [l for l in blocks.get("replay", []) if not l.startswith("TRACE decl_var") and not l.startswith("  var ")]
+    print("\n".join(out))
+    print("--- required ---")
+    print(json.dumps(rep.get("required"), indent=1))
+    req = rep.get("required")
+    if isinstance(req, str) and any(req in l for l in out):
+        return 0
     return 1
